@@ -92,12 +92,12 @@ PROPS["C11"] = dict(
 
 PROPS["C08"] = dict(
     claim=dict(
-        text="Machine-checked proof (Coq 8.16): for every sequence of writer operations (status settings incl. non-positive codes, header settings, writes under any short-write script of the underlying writer, flushes, http.Error/Redirect helpers, snapshots) followed by the dispatcher's final commit, the model of responseWriter emits exactly WH(spec_status) followed by the accepted bytes and flushes in order (C08_log, C08_one_commit), spec_status is the last positive status up to the first committing op (C08_status), Length ends as the accepted byte count, and an empty chain still commits once with 200 (C08_empty). Tie to the code: the extracted model and spec are compared with the call log of a recording ResponseWriter+Flusher driven through Router.ServeHTTP with the ops spread over a middleware chain.",
+        text="Machine-checked proof (Coq 8.16): for every sequence of writer operations (status settings incl. non-positive codes, header settings, writes under any short-write script of the underlying writer, flushes, http.Error/Redirect helpers, snapshots) followed by the dispatcher's final commit, the model of responseWriter emits exactly WH(spec_status) followed by the accepted bytes and flushes in order (C08_log, C08_one_commit), spec_status is the last positive status up to the first committing op (C08_status), Length ends as the accepted byte count, and an empty chain still commits once with 200 (C08_empty). End to end through the whole-router function (route table + lookup + chain assembly + chain machine + panic recovery + hooks + final commit): every request sys_serve completes, for any table, handler programs and hooks, commits the header exactly once and first, an escaped panic leaves either nothing or a header first, and so does every request of every history (C08_end_to_end_one_commit, C08_end_to_end_escaped, C08_history_one_commit). Tie to the code: the extracted model and spec are compared with the call log of a recording ResponseWriter+Flusher driven through Router.ServeHTTP with the ops spread over a middleware chain.",
         note="Trusted: Coq kernel, extraction, driver, harness; net/http's http.Error / http.Redirect are modelled by their WriteHeader/Write calls; headers are outside this property's projection; panicking chains are C09.",
         technique="Coq proof: induction over operation sequences with committed/uncommitted invariant; extracted model vs implementation differential check"),
     n=dict(quick=8000, thorough=60000),
     consts=[],
-    theorems=["C08_log", "C08_one_commit", "C08_status", "C08_empty"],
+    theorems=["C08_log", "C08_one_commit", "C08_status", "C08_empty", "C08_end_to_end_one_commit", "C08_end_to_end_escaped", "C08_history_one_commit"],
     rule="case = (short-write script of the underlying writer, chain of 1..4 handlers each with writer ops before/after Next): ops drawn from "
          "SetStatus(-1,0,1xx..5xx), SetHeader, Write, Flush, http.Error, http.Redirect(POST), snapshot; executed through Router.ServeHTTP against a "
          "recording ResponseWriter+Flusher. Observed: the underlying call log and StatusCode()/Length() snapshots. Non-trivial = distinct case with a "
@@ -142,12 +142,12 @@ PROPS["C04"] = dict(
 
 PROPS["C05"] = dict(
     claim=dict(
-        text="Machine-checked proof (Coq 8.16): for every chain of at most 63 handlers calling Next at most once and every position and flavour of the aborting handler, from the moment an Abort / AbortThen / AbortWithStatus op executes in a state reachable from the start of the request no further handler ever starts, even if Next is called afterwards, and the cursor never crashes (C05_no_later_start, C05_no_later_start_status; by the reachable-state invariant index+debt<=127 whose worst case 63+1+63 is exactly the int8 maximum); suspended handlers resume and apply exactly their remaining effects (C05_suspended_resume); IsAborted is true from then on (C05_is_aborted_after, C05_aborted_stable); AbortWithStatus records its status like SetStatus (C05_status, with C08); registration enforces the limit (C05_limit). K1 (IsAborted true without abort when the cursor reaches 63 by nesting, chains >= 32) is a refuted witness and a known finding. Tie to the code: chains of every length 1..63 x abort position x before/after/without Next x other handlers with/without Next, with IsAborted samples; trace, IsAborted values and status compared with the extracted model; judge checks the clauses on the implementation's trace.",
+        text="Machine-checked proof (Coq 8.16): for every chain of at most 63 handlers calling Next at most once and every position and flavour of the aborting handler, from the moment an Abort / AbortThen / AbortWithStatus op executes in a state reachable from the start of the request no further handler ever starts, even if Next is called afterwards, and the cursor never crashes (C05_no_later_start, C05_no_later_start_status; by the reachable-state invariant index+debt<=127 whose worst case 63+1+63 is exactly the int8 maximum); suspended handlers resume and apply exactly their remaining effects (C05_suspended_resume); IsAborted is true from then on (C05_is_aborted_after, C05_aborted_stable); AbortWithStatus records its status like SetStatus (C05_status, with C08); registration enforces the limit (C05_limit); end to end, for the chain the whole-router function assembles for a resolved request, the started-handler list the request outcome reports is the list at the moment of the abort, through the rest of the chain, the OnError/OnPanic hooks and the final commit (C05_end_to_end). K1 (IsAborted true without abort when the cursor reaches 63 by nesting, chains >= 32) is a refuted witness and a known finding. Tie to the code: chains of every length 1..63 x abort position x before/after/without Next x other handlers with/without Next, with IsAborted samples; trace, IsAborted values and status compared with the extracted model; judge checks the clauses on the implementation's trace.",
         note="Trusted: Coq kernel, extraction, driver, harness. 'IsAborted is false before the first abort' is proved for chains of at most 31 handlers (C05_is_aborted_before: the cursor stays below 63); it is false of the code for longer chains whose nesting reaches the sentinel (K1). Chains longer than 63 (only reachable through global middleware) are outside the property's quantifier (DESIGN O2).",
         technique="Coq proof: step-preserved potential invariant of the chain machine (abort containment) + termination/resume theorem; extracted model vs implementation differential check"),
     n=dict(quick=3000, thorough=20000),
     consts=["abort-index"],
-    theorems=["C05_no_later_start", "C05_no_later_start_status", "C05_suspended_resume", "C05_is_aborted_after", "C05_is_aborted_before", "C05_aborted_stable", "C05_status", "C05_limit"],
+    theorems=["C05_no_later_start", "C05_no_later_start_status", "C05_suspended_resume", "C05_is_aborted_after", "C05_is_aborted_before", "C05_aborted_stable", "C05_status", "C05_limit", "C05_end_to_end"],
     rule="case = one route behind n-1 middleware split over global / group / route (chain length 1..63), aborting handler at a random position, flavour "
          "Abort/AbortThen/AbortWithStatus(+later SetStatus), before / after / without Next, other handlers calling Next with probability 3/4, IsAborted samples, "
          "occasional body writes. Observed: trace with marker before the abort, IsAborted values, writer log. Non-trivial = distinct case with chain length >= 2.",
@@ -194,12 +194,12 @@ _RT_TRUSTED = ["modelled, not verified: Go's regexp engine (leftmost-first backt
 
 PROPS["C01"] = dict(
     claim=dict(
-        text="Machine-checked proof (Coq 8.16): for every table of grammar-level routes (static paths and patterns with literals, {name}, {name:regex}, global variables, nested optional tails; any method sets), every '/'-free method and every normalised path, the router's three-tier lookup (static map keyed method+path, first-node index with literal-prefix filter, residual list; routes stored by id in Go-map-like association lists) selects exactly what the documented rule prescribes - exact static path first, then the earliest registered matching pattern with a complete literal first segment, then the earliest other matching pattern (C01_selection); the selected route allows the method and its pattern matches the whole path in the declarative semantics, and 'no route' is reported only if no registered route does (C01_sound, C01_complete, via soundness+completeness of the backtracking matcher for the declarative regex semantics); the same holds with the cache on (C01_cached). Tie to the code: generated overlapping tables x probes (instantiations, single-edit mutations, hostile strings); the implementation's selection is compared with the extracted string-level model (pattern compiler + regex parser + tables) and judged by spec_select on the grammar-level AST; on every generated pattern an executable link check compares the string-level compiler with the grammar-level one (start, first node, variable names). Added later: the string-level router (what AddRoute does with the pattern TEXT: compile_dyn + regex parser - the model that is executed against rux) is proved to register every table of static routes and printable patterns and to answer every lookup (route id and parameters, any options, cache included) exactly like the grammar-level router, hence to select exactly spec_select (C01_text_link, C01_string_level_registers, C01_string_level_lookup, C01_string_level_selection; RoundTrip.v, TableLink.v).",
+        text="Machine-checked proof (Coq 8.16): for every table of grammar-level routes (static paths and patterns with literals, {name}, {name:regex}, global variables, nested optional tails; any method sets), every '/'-free method and every normalised path, the router's three-tier lookup (static map keyed method+path, first-node index with literal-prefix filter, residual list; routes stored by id in Go-map-like association lists) selects exactly what the documented rule prescribes - exact static path first, then the earliest registered matching pattern with a complete literal first segment, then the earliest other matching pattern (C01_selection); the selected route allows the method and its pattern matches the whole path in the declarative semantics, and 'no route' is reported only if no registered route does (C01_sound, C01_complete, via soundness+completeness of the backtracking matcher for the declarative regex semantics); the same holds with the cache on (C01_cached). Tie to the code: generated overlapping tables x probes (instantiations, single-edit mutations, hostile strings); the implementation's selection is compared with the extracted string-level model (pattern compiler + regex parser + tables) and judged by spec_select on the grammar-level AST; on every generated pattern an executable link check compares the string-level compiler with the grammar-level one (start, first node, variable names). Added later: the string-level router (what AddRoute does with the pattern TEXT: compile_dyn + regex parser - the model that is executed against rux) is proved to register every table of static routes and printable patterns and to answer every lookup (route id and parameters, any options, cache included) exactly like the grammar-level router, hence to select exactly spec_select (C01_text_link, C01_string_level_registers, C01_string_level_lookup, C01_string_level_selection; RoundTrip.v, TableLink.v). End to end: a router built by a registration program (groups, prefixes, middleware) whose routes are a printable table answers every lookup after any request history, cache on or off, with the spec ladder, and dispatches to exactly that route of the program text with the documented chain (C01_end_to_end_ladder, C01_end_to_end_dispatch; SysMore.v).",
         note="Trusted: Coq kernel, extraction, driver, harness. The theorem is about routers built from the grammar-level AST (PatTable.build); the string-level front end (strings.Replacer-style text assembly + regexp.MustCompile) is tied to it by the executable link check and by the probes, not by proof (the parse/print round trip was not attempted). Go's regexp engine is modelled (leftmost-first backtracking) on the parser subset.",
         technique="Coq proof: three-tier lookup = priority rule over a declarative pattern semantics (tier characterisation + prefix/first-node soundness + matcher soundness/completeness); extracted model vs implementation differential check"),
     n=dict(quick=3000, thorough=40000),
     consts=["any-methods", "global-vars", "any-match"],
-    theorems=["C01_selection", "C01_sound", "C01_complete", "C01_cached", "C01_text_link"],
+    theorems=["C01_selection", "C01_sound", "C01_complete", "C01_cached", "C01_text_link", "C01_end_to_end_ladder", "C01_end_to_end_dispatch"],
     rule="case = table of 1..10 routes (static paths and patterns from an AST generator: literal segments over a small shared pool incl. a.b / v1.0, {v}, "
          "{v:re} with 12 regex kinds, global variables, literal prefix/suffix inside a segment, 0..2 nested optional tails), any subset of the 9 methods, "
          "optional StrictLastSlash / cache; 12 Router.Match probes: instantiations of the table's own patterns (85% valid values), single-edit mutations, a few "
